@@ -51,6 +51,25 @@ Definition validity_of_cbor (v : cbor) : option validity_info :=
   end.
 Definition c_validity_info : codec validity_info := Codec validity_to_cbor validity_of_cbor.
 
+(* impl TryFrom<ValidityInfo> for ciborium::Value with its failure modes: the dates are converted in the
+   order signed, validFrom, validUntil, expectedUpdate and the first `?` that fires aborts.  When none
+   does, the result is [validity_to_cbor]. *)
+Inductive encoded := EncOk (c : cbor) | EncErr (e : enc_error) | EncPanic.
+Definition validity_dates (v : validity_info) : list odt :=
+  [vi_signed v; vi_valid_from v; vi_valid_until v] ++ match vi_expected_update v with Some d => [d] | None => [] end.
+Fixpoint first_failure (ds : list odt) : option emitted :=
+  match ds with
+  | [] => None
+  | d :: r => match emit_checked d with Emitted _ => first_failure r | o => Some o end
+  end.
+Definition validity_encode (v : validity_info) : encoded :=
+  match first_failure (validity_dates v) with
+  | None => EncOk (validity_to_cbor v)
+  | Some (EmitError e) => EncErr e
+  | Some _ => EncPanic
+  end.
+Definition validity_encodable (v : validity_info) : bool := forallb emit_ok (validity_dates v).
+
 (* what decode-after-encode gives: every date in UTC with the sub-second part dropped *)
 Definition validity_norm (v : validity_info) : validity_info :=
   ValidityInfo (to_utc_trunc (vi_signed v)) (to_utc_trunc (vi_valid_from v)) (to_utc_trunc (vi_valid_until v))
